@@ -10,14 +10,16 @@ policies obtained to `DispatchOnRequest` / `DispatchOnResponse`.  The accessor i
 What makes the version used observable (the "lens", mirrored by the policies the harness loads for
 label `k`): on the request path a global account-orchestration remedy stamps the label on the request;
 on the response path a global retry remedy (`services/remedies/retry_plugin.go`; attempts 3, multiplier
-1, initial cool-down `10 + k`) fires only on status `500 + k`.  `retryLens` is that plugin: state per
+1, initial cool-down `10 + k % 10`) fires only on status `500 + k % 10`.  The stamp lives in the
+`accounts` section of the policies, the retry remedy in `global`: two labels with the same units digit
+differ in the accounts section only (an operator rotating a key).  `retryLens` is that plugin: state per
 SEQUENCE id = (attempts left, next cool-down).
 -/
 namespace LunarVerif.C11
 
 def lensAttempts : Nat := 3
-def lensCooldown (k : Nat) : Nat := 10 + k
-def lensStatus (k : Nat) : Nat := 500 + k
+def lensCooldown (k : Nat) : Nat := 10 + k % 10
+def lensStatus (k : Nat) : Nat := 500 + k % 10
 
 /-- `RetryPlugin.OnResponse` under the policies of label `k` (cache never expires: frozen clock). -/
 def retryLens (retry : List (Nat × (Nat × Nat))) (k id seq status : Nat) :
